@@ -16,6 +16,11 @@ use std::sync::Arc;
 pub static NUM_LIVE_CHUNKS: AtomicUsize = AtomicUsize::new(0);
 pub static NUM_LIVE_BYTES: AtomicUsize = AtomicUsize::new(0);
 
+/// Verification hook: address ranges `[start, end)` of the live chunks, by start address.
+#[cfg(woodpile_verif)]
+pub static VERIF_LIVE_RANGES: std::sync::Mutex<std::collections::BTreeMap<usize, usize>> =
+    std::sync::Mutex::new(std::collections::BTreeMap::new());
+
 /// Conceptually, [`Chunk`] is a `Box<[u8]>`, but we convert to/from
 /// [`NonNull`] at construction and destruction in order to avoid
 /// aliasing footguns.
@@ -30,6 +35,14 @@ impl Chunk {
         use std::sync::atomic::Ordering;
         NUM_LIVE_CHUNKS.fetch_add(1, Ordering::Relaxed);
         NUM_LIVE_BYTES.fetch_add(storage.len(), Ordering::Relaxed);
+        #[cfg(woodpile_verif)]
+        {
+            let start = storage.as_ptr() as usize;
+            VERIF_LIVE_RANGES
+                .lock()
+                .unwrap()
+                .insert(start, start + storage.len());
+        }
 
         Chunk {
             storage: NonNull::from(Box::leak(storage)),
@@ -55,6 +68,11 @@ impl Drop for Chunk {
         #[allow(unused_mut)] // needed for test-only memset.
         let mut storage = unsafe { Box::from_raw(self.storage.as_mut()) };
         let capacity = storage.len();
+        #[cfg(woodpile_verif)]
+        VERIF_LIVE_RANGES
+            .lock()
+            .unwrap()
+            .remove(&(storage.as_ptr() as usize));
 
         #[cfg(debug_assertions)]
         for i in 0..capacity {
@@ -103,6 +121,15 @@ impl Anchor {
         Anchor {
             count: count.into(),
             chunk: None,
+        }
+    }
+
+    /// Verification hook: start address of the chunk held by this anchor (0 if none).
+    #[cfg(woodpile_verif)]
+    pub fn verif_chunk(&self) -> usize {
+        match self.chunk.as_ref() {
+            Some(c) => c.storage.as_ptr() as *const u8 as usize,
+            None => 0,
         }
     }
 
